@@ -50,6 +50,9 @@ def prepare(rp, ce, params):
         def judge(out):
             if "panic" in out: return True, "panics: " + out["panic"][:150]
             o = sp["by_code"].get(b)
+            pn = sp["pinned"].get(b)
+            if pn is not None and (out.get("result") != "ok" or out.get("opcode") != f"{pn['group']}({pn['name']})"):
+                return True, f"pinned opcode table: {b:#x} = {pn['group']}::{pn['name']}; real: {out}"
             if o is None: return out.get("result") != "err", f"byte {b:#x} not in asm.yml; real: {out}"
             bad = out.get("result") != "ok" or out.get("opcode") != f"{o['group']}({o['name']})" or out.get("byte") != str(b)
             return bad, f"asm.yml: {o['group']}::{o['name']}; real: {out}"
